@@ -32,7 +32,15 @@ cd /verif
 out=$(VERIF_REPO="$wt" VERIF_EVIDENCE_DIR="/tmp/mt/ev-$id" timeout 3600 ./check "$prop" --tier "$tier" 2>&1); rc=$?
 nviol=$(printf '%s\n' "$out" | grep -c '^VIOLATION')
 printf '%s\n' "$out" > "/tmp/mt/out-$id.txt"
-ID="$id" BASE="$base" PROP="$prop" TIER="$tier" TESTS="$tests" DW="$demo_without" DWI="$demo_with" RC="$rc" NV="$nviol" /venv/bin/python - <<'PY'
+# further checks against the same scratch tree (used for behaviour-preserving changes: every one must stay silent)
+extra=""
+shift 3 2>/dev/null || shift $#
+for xp in "$@"; do
+  xo=$(VERIF_REPO="$wt" VERIF_EVIDENCE_DIR="/tmp/mt/ev-$id" timeout 3600 ./check "$xp" --tier "$tier" 2>/dev/null); xrc=$?
+  extra="$extra $xp=$xrc"
+  if [ $xrc -ne 0 ]; then printf '%s\n' "$xo" | grep -A2 '^VIOLATION\|^HARNESS' | head -12 > "/tmp/mt/extra-$id-$xp.txt"; fi
+done
+EXTRA="$extra" ID="$id" BASE="$base" PROP="$prop" TIER="$tier" TESTS="$tests" DW="$demo_without" DWI="$demo_with" RC="$rc" NV="$nviol" /venv/bin/python - <<'PY'
 import json, os
 out = open(f"/tmp/mt/out-{os.environ['ID']}.txt").read().splitlines()
 first = ""
@@ -43,6 +51,6 @@ for i, l in enumerate(out):
 known = [l[:160] for l in out if l.startswith("KNOWN-FINDING")]
 print(json.dumps({"id": os.environ["ID"], "base": os.environ["BASE"], "property": os.environ["PROP"], "tier": os.environ["TIER"], "tests": os.environ["TESTS"],
                   "demo_without": os.environ["DW"], "demo_with": os.environ["DWI"], "check_exit": int(os.environ["RC"]), "violation_lines": int(os.environ["NV"]),
-                  "first": first, "summary": (out[-1] if out else "")[:300]}))
+                  "first": first, "summary": (out[-1] if out else "")[:300], "extra": os.environ.get("EXTRA", "").strip()}))
 PY
 rm -f /tmp/mt/demo-$id.out "/tmp/mt/out-$id.txt"
